@@ -72,6 +72,15 @@ var c05Items = []c05Item{
 	{"'5\" pipe' AS part", func(r Row, out map[string]any, _ map[string][]any) { out["part"] = "5\" pipe" }},
 	{"\"it's fine\" AS note", func(r Row, out map[string]any, _ map[string][]any) { out["note"] = "it's fine" }},
 	{"'a:b' AS c1", func(r Row, out map[string]any, _ map[string][]any) { out["c1"] = "a:b" }},
+	// a column whose name has upper-case letters (every row lacks the lower-case spelling)
+	{"cpuLoad", func(r Row, out map[string]any, _ map[string][]any) { out["cpuLoad"] = getPath(r, "cpuLoad") }},
+	{"cpuLoad * 2 AS cl2", func(r Row, out map[string]any, _ map[string][]any) {
+		if f, ok := ref.ToNum(getPath(r, "cpuLoad")); ok {
+			out["cl2"] = f * 2
+		} else {
+			out["cl2"] = nil
+		}
+	}},
 }
 
 type c05Where struct {
@@ -94,6 +103,7 @@ var c05Wheres = []c05Where{
 		v, ok := getPath(r, "s").(string)
 		return ok && ref.Like(v, "%b_c%") && numGT(getPath(r, "a"), 0)
 	}},
+	{"cpuLoad > 1", func(r Row) bool { return numGT(getPath(r, "cpuLoad"), 1) }},
 }
 
 func c05Rows() []Row {
@@ -106,7 +116,7 @@ func c05Rows() []Row {
 		for _, d := range ds {
 			for _, s := range ss {
 				// "__seq__" / "_u": ordinary user columns whose names look like the engine's internal placeholders
-				r := Row{"b": 1 + (i%2)*2, "flag": i%3 == 0, "__seq__": i, "_u": "u"}
+				r := Row{"b": 1 + (i%2)*2, "flag": i%3 == 0, "__seq__": i, "_u": "u", "cpuLoad": i % 4}
 				i++
 				if a != c04Missing {
 					r["a"] = a
